@@ -39,7 +39,7 @@ fn tapped_run(
 ) -> (TapOutcome, Rc<RefCell<crate::adapter::Sim>>) {
     let w = cx.w;
     let t = std::mem::replace(sched, Tape::replaying(vec![]));
-    let sim = make_sim(w, cfg, t, false, 400 * cx.model.steps + 200_000);
+    let sim = make_sim(w, cfg, t, false, cx.model.event_cap());
     let adapter = SimAdapter::new(sim.clone());
     let trace = Trace::new(w.compiled.ir_query.clone(), w.args.clone());
     let tracer = Rc::new(RefCell::new(trace));
@@ -107,7 +107,7 @@ pub fn case_c15(cx: &mut CaseBridge<'_, '_>, sched: &mut Tape) -> Result<(), Har
     // direct execution, lazy schedule
     let direct = {
         let mut o = ExecOpts::new(SchedCfg::lazy());
-        o.event_cap = 400 * cx.model.steps + 200_000;
+        o.event_cap = cx.model.event_cap();
         let t = std::mem::replace(sched, Tape::replaying(vec![]));
         let e = exec(w, o, t);
         *sched = e.sched.clone();
